@@ -148,6 +148,26 @@ mut2("C12-backticks-class-attr", [
     ("markdown_it/rules_inline/state_inline.py", '''        # backticklength => last seen position
         self.backticks: dict[int, int] = {}
         self.backticksScanned = False''', '''        self.backticksScanned = False''', 1)])
+mut("C12-set-keeps-optionsdict", MAIN,
+    '        self.options = OptionsDict(options)\n',
+    '        # no need to copy what already is an OptionsDict\n'
+    '        self.options = options if isinstance(options, OptionsDict) else OptionsDict(options)\n')
+mut2("C12-table-align-attrs-shared", [
+    ("markdown_it/rules_block/table.py", """    for i in range(len(columns)):
+        token = state.push("th_open", "th", 1)
+        if aligns[i]:
+            token.attrs = {"style": "text-align:" + aligns[i]}
+""", """    for i in range(len(columns)):
+        token = state.push("th_open", "th", 1)
+        if aligns[i]:
+            token.attrs = _ALIGN_ATTRS[aligns[i]]
+""", 1),
+    ("markdown_it/rules_block/table.py", """def getLine(state: StateBlock, line: int) -> str:""",
+     """# the three possible attribute dicts of aligned cells, built once
+_ALIGN_ATTRS = {a: {"style": "text-align:" + a} for a in ("left", "center", "right")}
+
+
+def getLine(state: StateBlock, line: int) -> str:""", 1)])
 # ---------------------------------------------------------------- C13
 mut2("C13-block-state-on-parser", [
     ("markdown_it/parser_block.py", '''        state = StateBlock(src, md, env, outTokens)
